@@ -290,7 +290,8 @@ def rule_e(chk, e):
     # every path with no waiting handlers reaches the completion walk
     walks = [n for n, label in targets if label == 'completion-walk']
     p = Q.escapes(g, [g.entry], lambda n: n in walks, avoid_edge=pat.test_edge(
-        lambda tt, pol: pol == 'T' and src(tt) == f'{ev}.waitingHandlers'))
+        lambda tt, pol: (pol == 'T' and src(tt) == f'{ev}.waitingHandlers') or
+        pat.fact_matches(pat.compare_fact(tt, pol), f'{ev}.waitingHandlers', ('!=', '>'), '0')))
     chk.ob('e', e.ref, 'when no handler is suspended every path reaches the completion walk', p is None and bool(walks), loc(e, e.node),
            path=pat.path_lines(p) if p else None, discr='walk-reached')
 
